@@ -471,9 +471,23 @@ where
                     Ok(()) => {}
                     Err(TestError::Fail(_reason, minimal)) => {
                         stop_all.store(true, Ordering::Relaxed);
-                        // Re-evaluate the minimal case to obtain the failure details.
-                        let mut scratch = Tally::default();
-                        match guard(|| exec(&minimal, &mut scratch)) {
+                        // Re-evaluate the minimal case to obtain the failure details. Sub-checks
+                        // whose system under test draws from hash-randomised sets (the server's
+                        // peer selection) get several attempts: there a defect shows up in a
+                        // fraction of the runs of one case, a correct tree in none.
+                        let attempts = if sub == "server-round-targets" { 40 } else { 1 };
+                        let mut outcome = {
+                            let mut scratch = Tally::default();
+                            guard(|| exec(&minimal, &mut scratch))
+                        };
+                        for _ in 1..attempts {
+                            if matches!(outcome, Ok(Err(_))) {
+                                break;
+                            }
+                            let mut scratch = Tally::default();
+                            outcome = guard(|| exec(&minimal, &mut scratch));
+                        }
+                        match outcome {
                             Ok(Err(failure)) => {
                                 let path = write_replay(ctx, sub, &minimal, &failure);
                                 violations.push(Violation {
@@ -538,7 +552,17 @@ where
         }
     };
     let mut tally = Tally::default();
-    match guard(|| exec(&case, &mut tally)) {
+    // (the server's peer selection draws from hash-randomised sets: a defect shows up in a fraction
+    // of the runs of one case, so that sub-check's replays are repeated)
+    let attempts = if sub == "server-round-targets" { 40 } else { 1 };
+    let mut outcome = guard(|| exec(&case, &mut tally));
+    for _ in 1..attempts {
+        if !matches!(outcome, Ok(Ok(()))) {
+            break;
+        }
+        outcome = guard(|| exec(&case, &mut tally));
+    }
+    match outcome {
         Ok(Ok(())) => {
             tally.evaluations += 1;
         }
